@@ -43,13 +43,19 @@ package bitmap
 //@     invariant forall j int :: 0 <= j && j < i ==> MaskUpto[j] == lowmask(j+1) && RMaskUpto[j] == ^lowmask(j+1)
 //@     invariant forall j int :: 0 <= j && j < i ==> Bit[j] == uint64(1) << uint64(j) && RBit[j] == ^(uint64(1) << uint64(j))
 
+//@ global select8Lookup: forall k int :: 0 <= k && k < 2048 ==> select8Lookup[k] == sel8pos(uint8(k >> 3), k & 7)
+
 //@ func initSelectLookup
 //@   initphase
 //@   assigns select8Lookup
+//@   ensures forall k int :: 0 <= k && k < 2048 ==> select8Lookup[k] == sel8pos(uint8(k >> 3), k & 7)
+//@   reveal sel8pos
 //@   loop 1
 //@     invariant 0 <= i && i <= 256
+//@     invariant forall k int :: 0 <= k && k < 8 * i ==> select8Lookup[k] == sel8pos(uint8(k >> 3), k & 7)
 //@   loop 2
-//@     invariant 0 <= j && j <= 8 && 0 <= i && i < 256
+//@     invariant 0 <= j && j <= 8 && 0 <= i && i < 256 && w == clr(uint8(i), j)
+//@     invariant forall k int :: 0 <= k && k < 8 * i + j ==> select8Lookup[k] == sel8pos(uint8(k >> 3), k & 7)
 
 //@ func Rank64 returns (c, b)
 //@   witness-gen rindex = IndexRank64(words)
@@ -306,28 +312,76 @@ package bitmap
 
 //@ func IndexSelect32 returns (sidx)
 //@   requires len(words) < 1<<25
+//@   ensures isSelIndex(words, sidx)
 //@   ensures fresh(sidx)
 //@   assigns nothing
+//@   use pc_zero(words[0])
+//@   useret pc_zero(words[len(words)])
 //@   loop 1
 //@     invariant fresh(sidx) && 0 <= i && i <= l && l == len(words) << 6
+//@     invariant int32(ith + 1) == rank(words, int32(i)) && -1 <= ith && ith < i
+//@     invariant len(sidx) == (ith + 32) >> 5
+//@     invariant forall k int :: 0 <= k && k < len(sidx) ==> 0 <= sidx[k] && int(sidx[k]) < i && bitAt(words, sidx[k]) == 1 && rank(words, sidx[k]) == int32(k) * 32
+//@     use rank_step(words, int32(i))
 
 //@ func IndexSelect32R64 returns (sidx, ridx)
 //@   requires len(words) < 1<<25
+//@   ensures isSelIndex(words, sidx) && isRank64Index(words, ridx, true)
 //@   ensures fresh(sidx) && fresh(ridx)
 //@   assigns nothing
+//@   use pc_zero(words[0])
+//@   useret pc_zero(words[len(words)])
 //@   loop 1
 //@     invariant fresh(sidx) && 0 <= i && i <= l && l == len(words) << 6
+//@     invariant int32(ith + 1) == rank(words, int32(i)) && -1 <= ith && ith < i
+//@     invariant len(sidx) == (ith + 32) >> 5
+//@     invariant forall k int :: 0 <= k && k < len(sidx) ==> 0 <= sidx[k] && int(sidx[k]) < i && bitAt(words, sidx[k]) == 1 && rank(words, sidx[k]) == int32(k) * 32
+//@     use rank_step(words, int32(i))
 
+// Select32: same result as Select32R64, found by skipping whole words by popcount from the
+// select checkpoint. c below is the number of low bits masked off the current word (only the
+// checkpoint word is masked).
 //@ func Select32 returns (a, b)
+//@   requires len(words) < 1<<25
+//@   requires isSelIndex(words, selectIndex)
+//@   requires 0 <= i && i < R(words, len(words))
+//@   ensures 0 <= a && int(a) < 64 * len(words) && bitAt(words, a) == 1 && rank(words, a) == i
+//@   ensures a < b && int(b) <= 64 * len(words)
+//@   ensures forall q int32 :: a < q && q < b ==> bitAt(words, q) == 0
+//@   ensures int(b) < 64 * len(words) ==> bitAt(words, b) == 1
 //@   assigns nothing
+//@   reveal sel64, sel32, sel16
 //@   loop 1
-//@     invariant true
+//@     use halving_facts(w)
+//@     invariant 0 <= wordI && int(wordI) < len(words) && l == int32(len(words)) && 0 <= findIth && findIth <= int(i) && a == 0
+//@     invariant 0 <= base && int(base) < 64 * len(words) && base >> 6 <= wordI
+//@     invariant w == words[int(wordI)] & ^lowmask(ite(wordI == base >> 6, int(base & 63), int(0)))
+//@     invariant i == R(words, int(wordI)) + PC64(words[int(wordI)] & lowmask(ite(wordI == base >> 6, int(base & 63), int(0)))) + int32(findIth)
+//@     use sel64_ok(w, findIth)
+//@     use r_step(words, int(wordI))
+//@     use pc_zero(words[int(wordI) + 1])
+//@     use pc64_disjoint(words[int(wordI)] & lowmask(ite(wordI == base >> 6, int(base & 63), int(0))), w)
+//@     use pc64_disjoint(words[int(wordI)] & lowmask(ite(wordI == base >> 6, int(base & 63), int(0))), w & lowmask(sel64(w, findIth)))
 //@   loop 2
-//@     invariant true
+//@     invariant a >> 6 < wordI && wordI <= l && l == int32(len(words)) && 0 <= a && int(a) < 64 * len(words)
+//@     invariant forall k int :: int(a >> 6) < k && k < int(wordI) ==> words[k] == 0
 
+// Select32R64: (a, b) = (position of the i-th 1-bit, position of the next 1-bit or 64*len).
+// "a is the i-th 1-bit" is stated as: bit a is 1 and exactly i 1-bits precede it.
 //@ func Select32R64 returns (a, b)
+//@   requires len(words) < 1<<25
+//@   requires isSelIndex(words, selectIndex) && isRank64Index(words, rankIndex, true)
+//@   requires 0 <= i && i < R(words, len(words))
+//@   ensures 0 <= a && int(a) < 64 * len(words) && bitAt(words, a) == 1 && rank(words, a) == i
+//@   ensures a < b && int(b) <= 64 * len(words)
+//@   ensures forall q int32 :: a < q && q < b ==> bitAt(words, q) == 0
+//@   ensures int(b) < 64 * len(words) ==> bitAt(words, b) == 1
 //@   assigns nothing
+//@   reveal sel64, sel32, sel16
 //@   loop 1
-//@     invariant true
+//@     use halving_facts(words[int(wordI)])
+//@     invariant 0 <= wordI && int(wordI) < len(words) && R(words, int(wordI)) <= i && l == int32(len(words))
+//@     use sel64_ok(words[int(wordI)], int(i - rankIndex[int(wordI)]))
 //@   loop 2
-//@     invariant true
+//@     invariant a >> 6 < wordI && wordI <= l && l == int32(len(words)) && 0 <= a && int(a) < 64 * len(words)
+//@     invariant forall k int :: int(a >> 6) < k && k < int(wordI) ==> words[k] == 0
